@@ -197,3 +197,56 @@ for prev in (None, (2, 3), (1, 3), (3, 3), (2, 2)):
     c.ensures('blank-and-shaped-like-the-named-light',
               'M.height == %d and M.width == %d and len(M._mat) == %d and all(len(r) == %d for r in M._mat) and all(all(x is None for x in r) for r in M._mat)' % (H, W, H, W))
     c.ensures('nothing-sent-yet', "len(ghost('Dev')) == 0")
+
+
+# ---- history independence on the matrix path: cells are converted as a plain `set` converts them AT THAT COMMAND,
+#      whatever an earlier block converted in other units (a conversion cached across commands keyed on the numbers alone)
+from .c07_machine import color_clauses
+MODES = ('LOGICAL', 'RAW', 'RGB')
+for mode1 in MODES:
+    for mode2 in MODES:
+        if mode1 == mode2:
+            continue
+        n1 = ('red', 'green', 'blue', 'kelvin') if mode1 == 'RGB' else ('hue', 'saturation', 'brightness', 'kelvin')
+        n2 = ('red', 'green', 'blue', 'kelvin') if mode2 == 'RGB' else ('hue', 'saturation', 'brightness', 'kelvin')
+        c = contract('bardolph/vm/machine.py', 'matrix_twice', serves=['C15', 'C07', 'C14'],
+                     name='lemma:set L begin stage end [%s]; units %s; registers assigned; set L begin stage end' % (mode1, mode2), src='''
+def matrix_twice(self, mode2, %s):
+    reg = self._reg
+    reg.first_row = reg.last_row = reg.first_column = reg.last_column = None
+    self._matrix()
+    self._color_matrix()
+    self._color_matrix_light()
+    reg.unit_mode = mode2
+%s
+    self._matrix()
+    self._color_matrix()
+    self._color_matrix_light()
+''' % (', '.join('n_' + n for n in n2), '\n'.join('    reg.%s = n_%s' % (n, n) for n in n2)))
+        def _setup(b, case, mode1=mode1, mode2=mode2, n1=n1, n2=n2):
+            impl = lib.device(b, 'dev')
+            light = lib.lifx_light(b, 'matrix', impl, 'L', _height=1, _width=1)
+            ls = lib.light_set_with(b, {'L': light})
+            m = lib.machine(b, mode1, ls)
+            reg = m.attrs['_reg']
+            reg.attrs['name'] = 'L'
+            reg.attrs['duration'] = 0
+            reg.attrs['default'] = PyList([0, 0, 0, 0])
+            top = {'LOGICAL': (359, 99, 99), 'RAW': (65534, 65534, 65534), 'RGB': (99, 99, 99)}[mode1]
+            for nm, hi in zip(n1[:3], top):           # the FIRST block's colour ranges over the interior (few paths)
+                reg.attrs[nm] = b.sym('real', nm)
+                b.between(reg.attrs[nm], 1, hi)
+            reg.attrs['kelvin'] = b.sym('real', 'kelvin')
+            b.between(reg.attrs['kelvin'], 1000, 9000)
+            out = {'self': m, 'mode2': b.enum('bardolph.controller.units', 'UnitMode', mode2), '_impl': impl}
+            for nm in n2:
+                v = b.sym('real', 'second_' + nm)
+                if mode2 == 'RGB' and nm != 'kelvin':
+                    b.between(v, 0, 100)
+                out['n_' + nm] = v
+            return out
+        c.setup(_setup)
+        c.bounded('1 x 1 matrix light')
+        c.define('D', "ghost('Dev')[1]")
+        c.ensures('two-whole-matrix-requests', "len(ghost('Dev')) == 2 and D[1] == 'set_matrix' and same(D[0], _impl) and len(D[2]) == 1")
+        color_clauses(c, mode2, D='D[2][0]', R='n_%s')
